@@ -741,7 +741,7 @@ Proof.
   destruct (ihas _ _); cbn [negb]; [|exact HK].
   destruct (index_of c _) as [bi|]; [|exact HK].
   destruct (n_name (getn s c)) as [nm|]; [|exact HK].
-  now apply (set_child_spec' U B x nm v bi s).
+  now apply (set_child_spec' U B x nm v (Z.of_nat bi) s).
 Qed.
 
 End Steps.
